@@ -12,8 +12,7 @@ HARNESSES = [
     ("c08_float_bounds", "two validators (4 bound kinds + finite), all non-NaN f64 values"),
     ("c08_duplicate_validators", "lists of <= 3 validators: same kind twice"),
     ("c08_string_len_bounds", "len_char_min / len_char_max / not_empty pairs, all usize values"),
-    ("c08_string_sanitizers", "trim / lowercase / uppercase lists of <= 2"),
-    ("c08_inner_field_visibility", "inner field visibility: inherited vs pub"),
+    ("c08_string_sanitizers", "pairs of trim / lowercase / uppercase sanitizers"),
 ]
 
 
@@ -28,7 +27,7 @@ def generate(tier, seed):
     plan.bounds = {"configurations": "symbolic trait selector (all 22), symbolic has_validation / has_finite, symbolic bound kinds and literal values (i32, non-NaN f64, usize); lists of <= 3 items (unwind 4-5)",
                    "not covered": "everything decided in the parse layer on token streams (foreign attributes, unknown names, with/error pairing, feature gates, regex literals, name clashes) and the generated #[test]s"}
     plan.assumptions = ["-Z stubbing: syn::Error::new is replaced by a function that asserts the reference expects rejection and ends the path (rejection is observed as 'an error is being constructed'); alloc::fmt::format stubbed to an empty string where messages are built with format!",
-                        "hooks: cfg(nutype_verif) wrappers expose private to_*_derive_trait / validate_validators / validate_sanitizers / validate_inner_field_visibility",
+                        "hooks: cfg(nutype_verif) wrappers expose private to_*_derive_trait / validate_validators / validate_sanitizers",
                         "inputs holding syn types are never dropped (ManuallyDrop / mem::forget): their drop glue is not part of the property",
                         "unconstrained cells (the reference gives no verdict): `From`+validation in the other/generic family (refused later by rustc), equal mixed-inclusive bounds, same-kind duplicates in validate_numeric_bounds"]
     return plan
